@@ -87,7 +87,13 @@ pub fn run_one(
                         crate::actors_integ::pre_step(&mut sim, &mut ctx, st);
                         match ctx.rng.below(if integ_only { 8 } else { 12 }) {
                             0..=2 => crate::actors_integ::step(&mut sim, &mut ctx, st),
-                            3 => crate::actors_integ::borrow_step(&mut sim, &mut ctx, st),
+                            3 => {
+                                if ctx.rng.chance(1, 2) {
+                                    crate::actors_integ::bracket_step(&mut sim, &mut ctx, st)
+                                } else {
+                                    crate::actors_integ::borrow_step(&mut sim, &mut ctx, st)
+                                }
+                            }
                             _ => actors::step_mkt(&mut sim, &mut ctx),
                         }
                     }
